@@ -403,4 +403,130 @@ theorem C08_shuffle_product (A : AV.NFA σ₁ α) (B : AV.NFA σ₂ α) (hA : A.
   · intro p _ q _
     exact hfin p q
 
+/-! ## compositions: results fed into further operations -/
+
+/-- `r` is a successful computation of a valid NFA whose language is `L`. -/
+def Computes (r : Res (AV.NFA σ α)) (L : Language α) : Prop :=
+  ∃ n, r = .ok n ∧ n.Valid ∧ Lang n = L
+
+theorem Computes.leaf {A : AV.NFA σ α} (hA : A.Valid) : Computes (.ok A) (Lang A) := ⟨A, rfl, hA, rfl⟩
+
+section compose
+variable {τ₁ τ₂ : Type} [DecidableEq τ₁] [DecidableEq τ₂]
+variable {x : Res (AV.NFA τ₁ α)} {y : Res (AV.NFA τ₂ α)} {L₁ L₂ : Language α}
+
+/-- **C08 (compositions).**  Every operation maps successful computations of valid NFAs to a
+successful computation of a valid NFA with the textbook language — so every finite
+expression tree over valid leaves evaluates without error to a valid NFA whose language is
+the expression's denotation (by induction on the tree, one lemma per node kind). -/
+theorem Computes.union (hx : Computes x L₁) (hy : Computes y L₂) :
+    Computes (do let a ← x; let b ← y; NFA.union a b) (L₁ + L₂) := by
+  obtain ⟨a, rfl, ha, rfl⟩ := hx
+  obtain ⟨b, rfl, hb, rfl⟩ := hy
+  exact C08_union a b ha hb
+
+theorem Computes.concatenate (hx : Computes x L₁) (hy : Computes y L₂) :
+    Computes (do let a ← x; let b ← y; NFA.concatenate a b) (L₁ * L₂) := by
+  obtain ⟨a, rfl, ha, rfl⟩ := hx
+  obtain ⟨b, rfl, hb, rfl⟩ := hy
+  exact C08_concatenate a b ha hb
+
+theorem Computes.intersection (hx : Computes x L₁) (hy : Computes y L₂) :
+    Computes (do let a ← x; let b ← y; NFA.intersection a b) (L₁ ⊓ L₂) := by
+  obtain ⟨a, rfl, ha, rfl⟩ := hx
+  obtain ⟨b, rfl, hb, rfl⟩ := hy
+  exact C08_intersection a b ha hb
+
+theorem Computes.shuffleProduct (hx : Computes x L₁) (hy : Computes y L₂) :
+    Computes (do let a ← x; let b ← y; NFA.shuffleProduct a b) (shuffleLang L₁ L₂) := by
+  obtain ⟨a, rfl, ha, rfl⟩ := hx
+  obtain ⟨b, rfl, hb, rfl⟩ := hy
+  exact C08_shuffle_product a b ha hb
+
+theorem Computes.rightQuotient (hx : Computes x L₁) (hy : Computes y L₂) :
+    Computes (do let a ← x; let b ← y; NFA.rightQuotient a b) (rightQuotientLang L₁ L₂) := by
+  obtain ⟨a, rfl, ha, rfl⟩ := hx
+  obtain ⟨b, rfl, hb, rfl⟩ := hy
+  exact C08_right_quotient a b ha hb
+
+theorem Computes.leftQuotient (hx : Computes x L₁) (hy : Computes y L₂) :
+    Computes (do let a ← x; let b ← y; NFA.leftQuotient a b) (leftQuotientLang L₁ L₂) := by
+  obtain ⟨a, rfl, ha, rfl⟩ := hx
+  obtain ⟨b, rfl, hb, rfl⟩ := hy
+  exact C08_left_quotient a b ha hb
+
+theorem Computes.kleeneStar (nat : Nat → τ₁) (hnat : Function.Injective nat) (hx : Computes x L₁) :
+    Computes (do let a ← x; NFA.kleeneStar nat a) (KStar.kstar L₁) := by
+  obtain ⟨a, rfl, ha, rfl⟩ := hx
+  exact C08_kleene_star nat hnat a ha
+
+theorem Computes.option (nat : Nat → τ₁) (hnat : Function.Injective nat) (hx : Computes x L₁) :
+    Computes (do let a ← x; NFA.option nat a) (1 + L₁) := by
+  obtain ⟨a, rfl, ha, rfl⟩ := hx
+  exact C08_option nat hnat a ha
+
+theorem Computes.reverse (nat : Nat → τ₁) (hnat : Function.Injective nat) (hx : Computes x L₁) :
+    Computes (do let a ← x; NFA.reverse nat a) L₁.reverse := by
+  obtain ⟨a, rfl, ha, rfl⟩ := hx
+  exact C08_reverse nat hnat a ha
+
+end compose
+
+/-- A depth-3 instance: `((A | B) + C)∗ & D.reverse()` for any valid operands (of any four
+state-name types) evaluates without error to a valid NFA for `((L_A + L_B)·L_C)∗ ⊓ L_Dʳ`. -/
+theorem C08_expr_example {τ₁ τ₂ τ₃ τ₄ : Type} [DecidableEq τ₁] [DecidableEq τ₂] [DecidableEq τ₃]
+    [DecidableEq τ₄] (A : AV.NFA τ₁ α) (B : AV.NFA τ₂ α) (C : AV.NFA τ₃ α) (D : AV.NFA τ₄ α)
+    (nat : Nat → τ₄) (hnat : Function.Injective nat)
+    (hA : A.Valid) (hB : B.Valid) (hC : C.Valid) (hD : D.Valid) :
+    Computes (do
+        let s ← (do
+          let c ← (do let u ← (do let a ← (.ok A : Res _); let b ← (.ok B : Res _); NFA.union a b)
+                       let c ← (.ok C : Res _); NFA.concatenate u c)
+          NFA.kleeneStar (fun k => k) c)
+        let r ← (do let d ← (.ok D : Res _); NFA.reverse nat d)
+        NFA.intersection s r)
+      (KStar.kstar ((Lang A + Lang B) * Lang C) ⊓ (Lang D).reverse) :=
+  Computes.intersection
+    (Computes.kleeneStar (fun k => k) (fun _ _ h => h)
+      (Computes.concatenate (Computes.union (Computes.leaf hA) (Computes.leaf hB)) (Computes.leaf hC)))
+    (Computes.reverse nat hnat (Computes.leaf hD))
+
+/-! ## non-vacuity: concrete valid operands, concrete results -/
+
+/-- `a*` with an ε-cycle, a state without a row and a junk row keyed by the non-state `1`
+(the name `_add_new_state` will pick). -/
+def exA : AV.NFA Nat Nat :=
+  { states := [0, 2], syms := [0], init := 0, finals := [2],
+    trans := [(0, [(none, [2]), (some 0, [0])]), (1, [(some 0, [0]), (none, [2])])] }
+
+/-- `b` over the alphabet `{b}` (`b = 1`), with state names overlapping those of `exA`. -/
+def exB : AV.NFA Nat Nat :=
+  { states := [0, 2], syms := [1], init := 2, finals := [0], trans := [(2, [(some 1, [0])])] }
+
+/-- The empty language with a single non-final state and no row at all. -/
+def exEmpty : AV.NFA Nat Nat := { states := [5], syms := [0], init := 5, finals := [], trans := [] }
+
+theorem exA_valid : exA.Valid := ⟨(NFA.validate_eq_ok _).mp (by decide), ⟨by decide, by decide⟩⟩
+theorem exB_valid : exB.Valid := ⟨(NFA.validate_eq_ok _).mp (by decide), ⟨by decide, by decide⟩⟩
+theorem exEmpty_valid : exEmpty.Valid := ⟨(NFA.validate_eq_ok _).mp (by decide), ⟨by decide, by decide⟩⟩
+
+/-- The model really computes: the union accepts `aa` and `b`, not `ab`; the concatenation
+accepts `aab`; the left quotient by the empty-language operand (the F6 trigger shape) is a
+valid NFA for the empty language instead of an error. -/
+example : (match NFA.union exA exB with
+    | .ok R => R.accepts [0, 0] && R.accepts [1] && !R.accepts [0, 1]
+    | .error _ => false) = true := by decide
+example : (match NFA.concatenate exA exB with
+    | .ok R => R.accepts [0, 0, 1] && R.accepts [1] && !R.accepts [0]
+    | .error _ => false) = true := by decide
+example : (match NFA.reverse (fun k => k) exA with
+    | .ok R => R.accepts [0, 0] && R.accepts [] && decide (R.init = 1)
+    | .error _ => false) = true := by decide
+example : (match NFA.leftQuotient exA exEmpty with
+    | .ok R => !R.accepts [] && !R.accepts [0]
+    | .error _ => false) = true := by decide
+example : (match NFA.rightQuotient exA exA with
+    | .ok R => R.accepts [] && R.accepts [0, 0]
+    | .error _ => false) = true := by decide
+
 end AV.Props.C08
